@@ -306,7 +306,7 @@ func overriddenPrefix(ev []xmodel.Event) bool {
 
 func TestC09(t *testing.T) {
 	runWitnesses(t, "C09")
-	runProp(t, "tree", 10000, 1000000, func(t *rapid.T) {
+	runProp(t, "tree", 100000, 1000000, func(t *rapid.T) {
 		ev := xmodel.Gen(t, xmlCfg())
 		doc := xmodel.Build(ev)
 		b, enc, feats, ok := serialise(t, doc, false)
@@ -331,7 +331,7 @@ func TestC09(t *testing.T) {
 		}
 		c09Tree.run(t, c)
 	})
-	runProp(t, "malformed", 6000, 400000, func(t *rapid.T) {
+	runProp(t, "malformed", 60000, 400000, func(t *rapid.T) {
 		ev := xmodel.Gen(t, xmodel.GenCfg{MaxDepth: 3, MaxKids: 3, XMLSafe: true, XMLEverywhere: true, Names: []string{"a", "b", "c"}, Values: []string{"1", "abc", "x y"}})
 		doc := xmodel.Build(ev)
 		b, _, _, ok := serialise(t, doc, true)
